@@ -81,10 +81,32 @@ _SRC = {}
 def fn_ast(f):
     f = getattr(f, '__func__', f)
     if f not in _SRC:
-        src = textwrap.dedent(inspect.getsource(f))
-        node = ast.parse(src).body[0]
+        try:
+            src = textwrap.dedent(inspect.getsource(f))
+            node = ast.parse(src).body[0]
+        except OSError:
+            node = frozen_fn_ast(f)
         _SRC[f] = node
     return _SRC[f]
+
+
+_FROZEN = {}
+
+
+def frozen_fn_ast(f):
+    """source of a function of a frozen stdlib module (_collections_abc): read from the stdlib .py file"""
+    import os
+    fname = f.__code__.co_filename
+    if not (fname.startswith('<frozen ') and fname.endswith('>')):
+        raise E.Unsupported('no source for %s' % f.__qualname__)
+    mod = fname[len('<frozen '):-1]
+    path = os.path.join(os.path.dirname(os.__file__), mod.replace('.', os.sep) + '.py')
+    if path not in _FROZEN:
+        _FROZEN[path] = ast.parse(open(path).read())
+    for node in ast.walk(_FROZEN[path]):
+        if isinstance(node, ast.FunctionDef) and node.name == f.__name__ and node.lineno == f.__code__.co_firstlineno:
+            return node
+    raise E.Unsupported('no source for %s' % f.__qualname__)
 
 
 def is_attrs_generated(fn):
